@@ -32,6 +32,15 @@ Section Loop.
 End Loop.
 
 (* ------------------------------------------------------------------ cpp_int primitives *)
+(* boost::multiprecision::pow: exponentiation by squaring (equal to Z.pow: MpSpec.zpow_spec) *)
+Fixpoint zpow_pos (a : Z) (p : positive) : Z :=
+  match p with
+  | xH => a
+  | xO p' => let h := zpow_pos a p' in h * h
+  | xI p' => let h := zpow_pos a p' in h * h * a
+  end.
+Definition zpow (a n : Z) : Z :=
+  match n with Z0 => 1 | Zpos p => zpow_pos a p | Zneg _ => 0 end.
 Definition bquot (a b : Z) : res Z := if b =? 0 then ErrExn EXN_STD else Ok (Z.quot a b).
 Definition brem (a b : Z) : res Z := if b =? 0 then ErrExn EXN_STD else Ok (Z.rem a b).
 Definition bdivide_qr (a b : Z) : res (Z * Z) :=
@@ -132,7 +141,7 @@ Definition mp_powm (base exp m : Z) : res Z :=
 (* step(n, i, x) = ((n-1)*x + i / x^(n-1)) / n *)
 Definition root_step (n i x : Z) : res Z :=
   let m := n - 1 in
-  let x_m := Z.pow x m in
+  let x_m := zpow x m in
   do d <- bquot i x_m;
   bquot (m * x + d) n.
 
@@ -149,7 +158,7 @@ Definition positive_root (i n : Z) : res (Z * bool) :=
   do y0 <- root_step n i 1;
   do rx <- run_loop (root_loop_step n i) (Z.to_pos (Z.abs y0 + 2)) y0;
   do x <- rx;
-  Ok (x, Z.pow x n =? i).
+  Ok (x, zpow x n =? i).
 
 Definition mp_root (i n : Z) : res (Z * bool) :=
   if n =? 0 then ErrExn EXN_STD
@@ -163,9 +172,9 @@ Definition mp_root (i n : Z) : res (Z * bool) :=
 
 Definition mp_sqrt (i : Z) : res Z := do rb <- mp_root i 2; Ok (fst rb).
 Definition mp_rootrem (i n : Z) : res (Z * Z) :=
-  do rb <- mp_root i n; let a := fst rb in Ok (a, i - Z.pow a n).
+  do rb <- mp_root i n; let a := fst rb in Ok (a, i - zpow a n).
 Definition mp_sqrtrem (i : Z) : res (Z * Z) :=
-  do a <- mp_sqrt i; Ok (a, i - Z.pow a 2).
+  do a <- mp_sqrt i; Ok (a, i - zpow a 2).
 Definition mp_perfect_square_p (i : Z) : res bool :=
   if i <? 0 then Ok false else do rb <- mp_root i 2; Ok (snd rb).
 
